@@ -1,16 +1,44 @@
 package sim
 
 import (
+	"bytes"
 	"fmt"
+	"math"
 	"math/rand/v2"
+	"sort"
 	"strings"
+	"time"
 
 	"github.com/bool64/cache"
+	zs "github.com/bool64/cache/zzverifsim"
 )
 
 func init() {
 	gens["C09"] = genC09
 	beOracles["C09"] = func(r *beRun) {
+		if r.sc.Mode == "conc" {
+			// concurrent operations over colliding keys: the linearizability oracle, reported under C09
+			save := r.e.out.Violations
+			r.e.out.Violations = nil
+			r.oracleC08()
+			post := r.e.out.post
+			r.e.out.post = nil
+			r.e.out.post = append(r.e.out.post, func() {
+				for _, f := range post {
+					f()
+				}
+
+				for i := range r.e.out.Violations {
+					r.e.out.Violations[i].Rule = strings.Replace(r.e.out.Violations[i].Rule, "C08.", "C09.R2-conc-", 1)
+				}
+
+				r.e.out.Violations = append(save, r.e.out.Violations...)
+			})
+			r.e.out.probe("concurrent_operations_over_colliding_keys")
+
+			return
+		}
+
 		m := newRefModel(r)
 		m.checkSeq("C09", r.recs)
 		r.seqReach()
@@ -36,9 +64,193 @@ func init() {
 		}
 	}
 	beOracles["C18"] = (*beRun).oracleC18BE
+	beOracles["C13"] = (*beRun).oracleC13Conc
+	beModes["evictconc"] = (*beRun).modeEvictConc
+}
+
+// genC13Conc: a Dump runs while other clients write keys that did not exist before; every entry
+// that is stable for the whole dump must be in the dump and therefore in the restored cache.
+func genC13Conc(r *rand.Rand) *Scenario {
+	sc := genBEBase(r, "conc")
+	be := sc.BE
+	be.Cfg = BEConfig{TTLNs: pick(r, int64(0), -1, 3600*sec), Jitter: -1}
+
+	ns := 4 + r.IntN(16)
+	for i := 0; i < ns; i++ {
+		be.Keys = append(be.Keys, []byte(fmt.Sprintf("stable-%d-%d", i, r.IntN(1000))))
+		op := BEOp{Kind: "write", Key: i}
+
+		if chance(r, 0.5) {
+			op.HasTTL, op.TTLNs = true, pick(r, 60*sec, 3600*sec, -60*sec)
+		}
+
+		be.Root = append(be.Root, op)
+	}
+
+	nn := 1 + r.IntN(6)
+	for i := 0; i < nn; i++ {
+		be.Keys = append(be.Keys, []byte(fmt.Sprintf("new-%d-%d", i, r.IntN(1000))))
+	}
+
+	be.Clients = [][]BEOp{{{Kind: "dump"}}}
+	if chance(r, 0.3) {
+		be.Clients[0] = append(be.Clients[0], BEOp{Kind: "dump"})
+	}
+
+	nw := 1 + r.IntN(3)
+	for c := 0; c < nw; c++ {
+		var ops []BEOp
+
+		for i := c; i < nn; i += nw {
+			ops = append(ops, BEOp{Kind: "write", Key: ns + i})
+		}
+
+		be.Clients = append(be.Clients, ops)
+	}
+
+	sc.NoFastPath = chance(r, 0.5)
+	sc.Sched = genSched(r, 600)
+
+	return sc
+}
+
+func (r *beRun) oracleC13Conc() {
+	out := r.e.out
+	stable := map[string]bool{}
+
+	for _, op := range r.sc.Root {
+		if op.Kind == "write" {
+			stable[string(r.sc.Keys[op.Key])] = true
+		}
+	}
+
+	for _, rec := range r.recs {
+		if rec.kind == "write" || rec.kind == "store" || rec.kind == "delete" {
+			delete(stable, rec.key)
+		}
+	}
+
+	src := map[string]walkEnt{}
+
+	_, _ = r.bk.walk(func(key []byte, v interface{}, exp time.Time) error {
+		src[string(key)] = walkEnt{key: string(key), val: v, exp: exp.UnixNano()}
+
+		return nil
+	})
+
+	for _, rec := range r.recs {
+		if rec.kind != "dump" || !rec.done {
+			continue
+		}
+
+		out.probe("dump_concurrent_with_writes")
+
+		if rec.err != nil {
+			out.violate("C13.R6", r.sc.Backend+" concurrent-dump-failed", "Dump running alongside writes failed: %v", rec.err)
+
+			continue
+		}
+
+		cfg := r.cacheConfig()
+		cfg.Stats, cfg.Logger, cfg.DeleteExpiredJobInterval = nil, nil, farFuture
+		dst := newBackend(r.sc.Backend, cfg)
+
+		n, err := dst.restore(bytes.NewReader(rec.dump))
+		if err != nil || n != rec.n {
+			out.violate("C13.R3", r.sc.Backend+" concurrent-dump-count", "Dump reported %d entries, Restore of its output gave (%d, %v)", rec.n, n, err)
+		}
+
+		got := map[string]walkEnt{}
+
+		_, _ = dst.walk(func(key []byte, v interface{}, exp time.Time) error {
+			got[string(key)] = walkEnt{key: string(key), val: v, exp: exp.UnixNano()}
+
+			return nil
+		})
+
+		dst.stop()
+
+		for k := range stable {
+			w, g := src[k], got[k]
+			if _, ok := got[k]; !ok {
+				out.violate("C13.R6", r.sc.Backend+" stable-entry-missing-from-concurrent-dump", "entry %q existed unchanged before, during and after the Dump (which ran alongside writes of new keys) but is missing from the dump (%d records)", k, rec.n)
+
+				break
+			}
+
+			if g.val != w.val || g.exp != w.exp {
+				out.violate("C13.R6", r.sc.Backend+" stable-entry-differs-in-concurrent-dump", "entry %q was dumped as (%v, %v) but holds (%v, %v)", k, g.val, time.Unix(0, g.exp).UTC(), w.val, time.Unix(0, w.exp).UTC())
+
+				break
+			}
+		}
+	}
+
+	out.NonTrivial = true
+	out.Outcome = fmt.Sprintf("conc-dump stable=%d", len(stable))
+}
+
+// genC18DeleteAll: DeleteAll runs while other clients write keys that did not exist before (every
+// key is created exactly once), so cache_delete must equal (keys ever written) - (entries left).
+func genC18DeleteAll(r *rand.Rand) *Scenario {
+	sc := genBEBase(r, "conc")
+	be := sc.BE
+	be.Cfg = BEConfig{TTLNs: 3600 * sec, Jitter: -1, Stats: true}
+
+	ns := 2 + r.IntN(10)
+	for i := 0; i < ns; i++ {
+		be.Keys = append(be.Keys, []byte(fmt.Sprintf("old-%d-%d", i, r.IntN(1000))))
+		be.Root = append(be.Root, BEOp{Kind: "write", Key: i})
+	}
+
+	nn := 1 + r.IntN(6)
+	for i := 0; i < nn; i++ {
+		be.Keys = append(be.Keys, []byte(fmt.Sprintf("new-%d-%d", i, r.IntN(1000))))
+	}
+
+	be.Clients = [][]BEOp{{{Kind: "deleteAll"}}}
+	if chance(r, 0.3) {
+		be.Clients = append(be.Clients, []BEOp{{Kind: "deleteAll"}})
+	}
+
+	nw := 1 + r.IntN(3)
+	for c := 0; c < nw; c++ {
+		var ops []BEOp
+
+		for i := c; i < nn; i += nw {
+			ops = append(ops, BEOp{Kind: "write", Key: ns + i})
+		}
+
+		be.Clients = append(be.Clients, ops)
+	}
+
+	sc.NoFastPath = chance(r, 0.5)
+	sc.Sched = genSched(r, 700)
+
+	return sc
 }
 
 func genC09(r *rand.Rand, run int, tier string) *Scenario {
+	if run%10 == 7 {
+		// (e) concurrent operations over a collision family (write of k' racing delete / read of k)
+		sc := genC08(r, 0, tier)
+		be := sc.BE
+		be.Keys, be.Groups = genKeys(r, 1, 2+r.IntN(2))
+		be.Keys, be.Groups = be.Keys[len(be.Keys)-len(be.Groups)+1:], be.Groups[1:]
+
+		if be.Backend == "syncmap" {
+			be.Backend = pick(r, "sharded", "shardedOf")
+		}
+
+		for c := range be.Clients {
+			for i := range be.Clients[c] {
+				be.Clients[c][i].Key = r.IntN(len(be.Keys))
+			}
+		}
+
+		return sc
+	}
+
 	if run%5 == 4 {
 		// (d) InvalidationIndex.AddLabels must not keep the caller's key slice: every labelled key
 		// buffer is overwritten right after the call; the label associations must still work
@@ -121,6 +333,10 @@ func (r *foRun) collisionProvenance() {
 // --- C18 (backend part) ---------------------------------------------------------------------------------
 
 func genC18BE(r *rand.Rand, run int, _ string) *Scenario {
+	if run%16 == 15 {
+		return genC18DeleteAll(r)
+	}
+
 	mode := "seq"
 	if run%4 == 3 {
 		mode = "conc"
@@ -182,6 +398,16 @@ func genC18BE(r *rand.Rand, run int, _ string) *Scenario {
 func (r *beRun) oracleC18BE() {
 	out := r.e.out
 	out.NonTrivial = len(r.recs) > 0
+
+	if !r.sc.Cfg.Stats {
+		return // nothing to account for without a stats tracker (the shrinker may have switched it off)
+	}
+
+	if len(r.sc.Clients) > 1 && len(r.sc.Clients[0]) > 0 && r.sc.Clients[0][0].Kind == "deleteAll" {
+		r.oracleC18DeleteAll()
+
+		return
+	}
 
 	got := map[string]float64{}
 
@@ -282,4 +508,226 @@ func (r *beRun) oracleC18BE() {
 	}
 
 	out.Outcome = fmt.Sprintf("r=%d w=%d d=%d", reads, writes, deletes)
+}
+
+func (r *beRun) oracleC18DeleteAll() {
+	out := r.e.out
+	written := map[string]bool{}
+
+	for _, op := range r.sc.Root {
+		if op.Kind == "write" {
+			written[string(r.sc.Keys[op.Key])] = true
+		}
+	}
+
+	for _, rec := range r.recs {
+		if rec.kind == "write" && rec.done && rec.err == nil {
+			written[rec.key] = true
+		}
+	}
+
+	left := r.bk.length()
+	del := 0.0
+
+	for _, s := range r.stats {
+		if !s.set && s.label == "be" && s.name == cache.MetricDelete {
+			del += s.val
+		}
+	}
+
+	out.probe("deleteAll_concurrent_with_writes")
+
+	if int(del) != len(written)-left {
+		out.violate("C18.delete", r.sc.Backend+" deleteAll-count-under-concurrency", "every key was created exactly once (%d keys), %d entries are left, so %d entries were removed by DeleteAll - but cache_delete = %v", len(written), left, len(written)-left, del)
+	}
+
+	out.Outcome = fmt.Sprintf("deleteAll conc written=%d left=%d", len(written), left)
+}
+
+// ---------------------------------------------------------------------------------------
+// C12, concurrent access histories: several clients serve the same keys at the same time, then one
+// eviction cycle runs. LFU ranks are the numbers of completed serves (exact under any
+// interleaving), LRU ranks are intervals (the last serve instant lies in its read's window).
+
+func genC12Conc(r *rand.Rand) *Scenario {
+	sc := genBEBase(r, "evictconc")
+	be := sc.BE
+	n := 3 + r.IntN(8)
+	be.Cfg = BEConfig{
+		TTLNs: 3600 * sec, Jitter: -1, DeleteExpiredAfterNs: 1000 * 24 * 3600 * sec, JanitorIntervalNs: 60 * sec,
+		EvictFraction: pick(r, 0.2, 0.34, 0.5, 0.75), Strategy: 1 + r.IntN(2), EvictionNeeded: []bool{true}, Stats: chance(r, 0.3),
+	}
+
+	for i := 0; i < n; i++ {
+		be.Keys = append(be.Keys, []byte(fmt.Sprintf("key-%02d", i)))
+		be.Root = append(be.Root, BEOp{Kind: "write", Key: i})
+	}
+
+	nc := 2 + r.IntN(5)
+	hot := r.IntN(n)
+
+	for c := 0; c < nc; c++ {
+		var ops []BEOp
+
+		m := 2 + r.IntN(8)
+		for i := 0; i < m; i++ {
+			k := r.IntN(n)
+			if chance(r, 0.5) {
+				k = hot
+			}
+
+			ops = append(ops, BEOp{Kind: "read", Key: k})
+		}
+
+		be.Clients = append(be.Clients, ops)
+	}
+
+	sc.NoFastPath = chance(r, 0.3)
+	sc.Sched = genSched(r, 40+nc*40)
+
+	return sc
+}
+
+func (r *beRun) modeEvictConc() {
+	e := r.e
+	out := e.out
+	cfg := r.sc.Cfg
+
+	for i := range r.sc.Root {
+		r.rootSleep(1000)
+		r.exec(-1, i, &r.sc.Root[i])
+	}
+
+	r.recs = nil
+	r.spawnClients()
+
+	if !e.runAll("") {
+		return
+	}
+
+	e.checkPanics()
+
+	type rank struct {
+		serves int
+		lo, hi int64
+	}
+
+	ranks := map[string]*rank{}
+	for _, k := range r.sc.Keys {
+		ranks[string(k)] = &rank{}
+	}
+
+	overlap := false
+
+	var served []*beRec
+
+	for _, rec := range r.recs {
+		if rec.kind == "read" && rec.done && errKind(rec.err) != "notfound" {
+			served = append(served, rec)
+		}
+	}
+
+	for i, rec := range served {
+		rk := ranks[rec.key]
+		rk.serves++
+
+		// The timestamp an entry ends up with is the one stored by a serve that is not strictly
+		// followed by another serve of the same key (stores of overlapping serves may land in any
+		// order): its instant lies in that serve's [invoke, return] window.
+		maximal := true
+
+		for j, o := range served {
+			if j != i && o.key == rec.key && o.inv > rec.ret {
+				maximal = false
+			}
+
+			if j > i && o.key == rec.key && o.client != rec.client && overlapping(rec.inv, rec.ret, o.inv, o.ret) {
+				overlap = true
+			}
+		}
+
+		if !maximal {
+			continue
+		}
+
+		if rk.lo == 0 || rec.invT < rk.lo {
+			rk.lo = rec.invT
+		}
+
+		if rec.retT > rk.hi {
+			rk.hi = rec.retT
+		}
+	}
+
+	if overlap {
+		out.probe("overlapping_serves_of_one_key")
+	}
+
+	before := map[string]bool{}
+
+	_, _ = r.bk.walk(func(key []byte, _ interface{}, _ time.Time) error {
+		before[string(key)] = true
+
+		return nil
+	})
+
+	wakes := r.janitor.Wakes
+	out.fault("clock_jump")
+
+	if v := e.s.Advance(dur(cfg.JanitorIntervalNs) + time.Millisecond); v != zs.Quiescent || r.janitor.Wakes != wakes+1 {
+		out.Internal = fmt.Sprintf("evictconc: advance %v, cycles %d", v, r.janitor.Wakes-wakes)
+
+		return
+	}
+
+	out.fault("janitor_cycle")
+
+	var removed, kept []string
+
+	after := map[string]bool{}
+
+	_, _ = r.bk.walk(func(key []byte, _ interface{}, _ time.Time) error {
+		after[string(key)] = true
+
+		return nil
+	})
+
+	for k := range before {
+		if after[k] {
+			kept = append(kept, k)
+		} else {
+			removed = append(removed, k)
+		}
+	}
+
+	sort.Strings(removed)
+	sort.Strings(kept)
+
+	class := fmt.Sprintf("%s strategy=%d concurrent-serves", r.sc.Backend, cfg.Strategy)
+	want := math.Floor(float64(len(before)) * cfg.EvictFraction)
+
+	if math.Abs(float64(len(removed))-want) > 1.000001 {
+		out.violate("C12.R2", class+" fraction-amount", "EvictionNeeded returned true: %d entries, EvictFraction=%v: %d removed, expected %.0f (+-1)", len(before), cfg.EvictFraction, len(removed), want)
+	}
+
+	for _, x := range removed {
+		for _, y := range kept {
+			rx, ry := ranks[x], ranks[y]
+
+			switch cfg.Strategy {
+			case 2:
+				if rx.serves > ry.serves {
+					out.violate("C12.R3", class+" order", "LFU: removed entry %q was served %d times, kept entry %q only %d times (serves by several clients overlapped)", x, rx.serves, y, ry.serves)
+				}
+			case 1:
+				if rx.lo > ry.hi {
+					out.violate("C12.R3", class+" order", "LRU: removed entry %q was last served after t=%v, kept entry %q last served before t=%v", x, time.Unix(0, rx.lo).UTC(), y, time.Unix(0, ry.hi).UTC())
+				}
+			}
+		}
+	}
+
+	out.probe("order_checked")
+	out.NonTrivial = true
+	out.Outcome = fmt.Sprintf("evictconc n=%d removed=%d", len(before), len(removed))
 }
